@@ -161,7 +161,9 @@ def alphabets(tier):
     a["duration"] = [["duration", v] for v in du]
     a["null"] = [["null", None]]
     ln = 4 if th else 3
-    a["list"] = _dedup(lists_over([I(1), I(2)], ln) + lists_over([L(), L(I(1))], ln) + lists_over([I(1), ["null", None]], 2))
+    a["list"] = _dedup(lists_over([I(1), I(2)], ln) + lists_over([L(), L(I(1))], ln) + lists_over([I(1), ["null", None]], 2)
+                       # elements of different types in the same position, and a container opposite null
+                       + lists_over([["bool", True], I(1)], 1) + lists_over([L(I(1)), ["null", None]], 1))
     mv = [I(1), I(2), L(I(1))]
     if th:
         a["map"] = _dedup(maps_over([S("a"), S("b"), S("c")], mv, _rot_orders) + maps_over([I(1), I(2), I(3)], mv, _rot_orders))
@@ -615,6 +617,21 @@ def law_pass(ctx, rows, typ, path, rk, alpha):
         cells[op] = m
     ordered = len(ops) == 6
     bad, inst = cmpref.check_laws(n, cells, ordered)
+    # Cells the reference does not rule on (containers holding values of different types in one position, a container
+    # opposite null): what == answers is not stated, but it must answer the same in both operand orders, and != must be
+    # its negation (an error where == is an error).  Judged on the raw observed outcomes T / F / e.
+    eqrows = [rows[(typ, path, rk, "==", i)] for i in range(n)]
+    nerows = [rows[(typ, path, rk, "!=", i)] for i in range(n)] if "!=" in ops else None
+    neg = {"T": "F", "F": "T", "e": "e"}
+    for i in range(n):
+        for j in range(n):
+            if cells["=="][i][j] is not None or eqrows[i][j] not in neg:
+                continue
+            inst["outcome-symmetry(unspecified cells)"] = inst.get("outcome-symmetry(unspecified cells)", 0) + 1
+            if i < j and eqrows[j][i] in neg and eqrows[i][j] != eqrows[j][i]:
+                bad.append(("outcome of == differs between operand orders", (i, j)))
+            if nerows is not None and nerows[i][j] in neg and nerows[i][j] != neg[eqrows[i][j]]:
+                bad.append(("outcome of != is not the negation of ==", (i, j)))
     for law, k in inst.items():
         ctx.part.extra["law_instances_checked"] += k
         ctx.part.extra[f"law_instances:{law}"] += k
@@ -660,7 +677,7 @@ def run(ctx):
                 "timedelta, list, dict - what the evaluator itself returns from e.g. double + double), [x] OP [y], {\"k\": x} OP {\"k\": y}} (the wrapped "
                 "paths only for == and !=), both runners; distinct by construction. "
                 "A case is non-trivial iff the reference relation is defined for it: same-type values, no NaN, no comparison of two "
-                "values of different CEL types inside containers (those are UNSPEC, counted, not compared). Each observed matrix is then "
+                "values of different CEL types inside containers (those are UNSPEC, counted, not compared with the reference; their == must still answer alike in both operand orders and != be its negation). Each observed matrix is then "
                 "checked against the coherence laws over every pair and every triple (bit-set row inclusion = the triple loop).")
     ctx.assumptions = ["values outside the alphabets are not explored",
                        "`>=` is judged as the mirror of `<=` (the statement names only < > <= ==)",
